@@ -41,6 +41,7 @@ def check(run, prog, tier):
     run.rule("C17-C", "propagation matrix: identity start, matrix exponential defined for every rate matrix, recurrence, offset once", minimum=7)
     run.rule("C17-D", "initial populations and the rate matrix are not mutated (also not through views of them)", minimum=6)
     rule_A(run, prog)
+    rule_A2(run, prog)
     rule_B(run, prog)
     rule_C(run, prog)
     rule_D(run, prog)
@@ -145,6 +146,40 @@ def rule_B(run, prog):
     run.obligation(rid, "PopulationPropagator.__init__", ok, key="step-setup",
                    message="propagator must take its step and length from its time axis with Nref=1",
                    loc=init.loc())
+
+
+def rule_A2(run, prog):
+    """'Keeps the assigned off-diagonal values': set_rate writes into self.data element-wise, so the array must be able to
+    hold a rate (a real number) and must belong to this matrix alone.  Every store of self.data in the constructor is a
+    fresh floating-point array: zeros with a float (or default) element type, or a float64 copy of what was given."""
+    rid = "C17-A"
+    cls = prog.cls("quantarhei.qm.liouvillespace.rates.ratematrix.RateMatrix")
+    init = cls.methods["__init__"]
+    prog.consulted.add(init.relpath)
+    FLOATS = ("float", "numpy.float64", "REAL", "numpy.double", "'float64'")
+    fresh = set()       # names bound to a fresh float array
+    for n in walk_no_nested(init.node):
+        if isinstance(n, ast.Assign) and isinstance(n.value, ast.Call) and call_name(n.value) in ("array", "zeros", "asfarray"):
+            dt = [k.value for k in n.value.keywords if k.arg == "dtype"]
+            copyfalse = any(k.arg == "copy" and isinstance(k.value, ast.Constant) and k.value.value is False for k in n.value.keywords)
+            if ((dt and norm(dt[0]) in FLOATS) or (call_name(n.value) == "zeros" and not dt)) and not copyfalse:
+                for t_ in n.targets:
+                    fresh.add(norm(t_))
+    stores = [n for n in walk_no_nested(init.node) if isinstance(n, ast.Assign) and any(norm(t_) == "self.data" for t_ in n.targets)]
+    if not stores:
+        raise AnalysisError("RateMatrix.__init__ no longer stores self.data")
+    for st_ in stores:
+        v = st_.value
+        ok = norm(v) in fresh or (isinstance(v, ast.Call) and call_name(v) in ("array", "zeros") and (
+            any(k.arg == "dtype" and norm(k.value) in FLOATS for k in v.keywords) or (call_name(v) == "zeros" and not any(k.arg == "dtype" for k in v.keywords))))
+        # the name must have been rebound to the fresh array before this store
+        if norm(v) in fresh:
+            reb = [n for n in walk_no_nested(init.node) if isinstance(n, ast.Assign) and any(norm(t_) == norm(v) for t_ in n.targets)]
+            ok = ok and all(r.lineno < st_.lineno for r in reb)
+        run.obligation(rid, "RateMatrix.__init__", ok, key="own-float-array:" + norm(st_)[:40],
+                       message="the constructor stores %s as the rate matrix: set_rate then writes into an array that keeps the "
+                               "element type of what was given (whole numbers truncate the rates) and that the caller, or "
+                               "another rate matrix, still holds" % norm(v), loc=init.loc(st_), sample={"store": norm(st_)})
 
 
 def rule_C(run, prog):
